@@ -1,7 +1,9 @@
 CONSTANTS
  MaxN = 2
+ PairN = 1
  Family = "vertex"
 SPECIFICATION Spec
-INVARIANT EmitWitnesses
-INVARIANT FaithfulWithoutSep
+INVARIANT RoundTrip
+INVARIANT Injective
+INVARIANT PrefixFree
 CHECK_DEADLOCK FALSE
